@@ -29,7 +29,7 @@ from ..mon import lines, sched
 ID = 'C10'
 ANCHORS = ['mido.ports', 'mido.backends._parser_queue']
 LEVEL = 'exploration'
-RULE = ('12 programs of 3-4 threads (1-2 senders, 1-2 receivers) over WirePort loopback, EchoPort, '
+RULE = ('14 programs of 3-4 threads (1-2 senders, 1-2 receivers) over WirePort loopback, EchoPort, '
         'IOPort(WireIn, WireOut), MultiPort fan-out and fan-in, two iter_pending consumers, '
         'ParserQueue with two producers and with two pollers, a SocketPort pair over socketpair(); every yield point is a line of mido/ports.py, parser.py, tokenizer.py, '
         'backends/_parser_queue.py or of the device double, a lock operation or a sleep(). All '
@@ -39,7 +39,7 @@ RULE = ('12 programs of 3-4 threads (1-2 senders, 1-2 receivers) over WirePort l
         'run-length encoded thread trace; non-trivial when it contains at least one context '
         'switch inside an operation (every schedule with a preemption is)')
 ASSUMPTIONS = [
-    'pre-emption happens at line boundaries of the monitored files only (CPython may also switch inside a line; messages/*.py is not instrumented, so Message.copy() is atomic here)',
+    'pre-emption happens at line boundaries of the monitored files (CPython may also switch inside a line): for backends/_parser_queue.py one program additionally yields at every bytecode instruction (sys.monitoring INSTRUCTION events); messages/*.py is not instrumented, so Message.copy() is atomic here',
     'ports lock with the lock object they create themselves: while a schedule runs, RLock() inside mido.ports and ParserQueue returns the real RLock wrapped in a scheduler-aware object (same semantics, incl. re-entrancy and try-acquire); the harness never reads or replaces port._lock',
     'ordering is judged per receiver thread and per sender only; no order is demanded between different members of a MultiPort or across receivers',
     'the native backends (rtmidi callbacks etc.) are out of reach; device ports are modelled by byte-wise doubles shaped like sockets.py/portmidi.py',
@@ -336,6 +336,37 @@ class P6bParserQueuePollers(Program):
                 receiver(rec, 2, p, 'q', [('poll', 2, 9), ('iter_pending',)])]
 
 
+class P6dTwoQueues(Program):
+    """Two separate ParserQueues (two input ports), each with its own producer: nothing may cross."""
+    name = 'P6d-two-parserqueues'
+
+    def build(self, sc, rec):
+        qa, qb = ParserQueue(), ParserQueue()
+        pa, pb = QueuePort(qa), QueuePort(qb)
+        self.ports = {'qa': pa, 'qb': pb}
+        self.wires = []
+        self.route = lambda pname: [pname]
+        return [sender(rec, 0, pa, 'qa', 0, (0, 1), (1, 0)), sender(rec, 1, pb, 'qb', 1, (0, 1), (0, 1)),
+                receiver(rec, 2, pa, 'qa', [('poll', 2, 9)]), receiver(rec, 3, pb, 'qb', [('poll', 2, 9)])]
+
+
+class P6eInstr(Program):
+    """The two-poller ParserQueue program again, with every BYTECODE INSTRUCTION of _parser_queue.py
+    as a yield point (pre-emption inside a source line)."""
+    name = 'P6e-parserqueue-instruction-granularity'
+    instr_files = ('_parser_queue.py',)
+    active_files = ('_parser_queue.py',)
+
+    def build(self, sc, rec):
+        q = ParserQueue()
+        p = QueuePort(q)
+        self.ports = {'q': p}
+        self.wires = []
+        self.route = lambda pname: ['q']
+        return [sender(rec, 0, p, 'q', 0, (0,), (0,)), receiver(rec, 1, p, 'q', [('poll', 2, 9)]),
+                receiver(rec, 2, p, 'q', [('poll', 2, 9)])]
+
+
 class P6cParserQueueLong(Program):
     """Two producers, one of them hands over a 2.5 KB sysex in one put_bytes() call.  Only the lines of
     _parser_queue.py yield here (the tokenizer would add ~10 steps per byte)."""
@@ -438,7 +469,7 @@ class P7SocketPair(Program):
 
 
 PROGRAMS = [P1Wire, P2Echo, P3IOPort, P4Fanout, P4Fanin, P5IterPending, P6ParserQueue, P6bParserQueuePollers,
-            P7SocketPair, P6cParserQueueLong, P8ParseAll, P9PanicVsSend]
+            P7SocketPair, P6cParserQueueLong, P8ParseAll, P9PanicVsSend, P6dTwoQueues, P6eInstr]
 
 
 class LockShim:
@@ -458,7 +489,8 @@ class LockShim:
 def run_schedule(prog_cls, strategy, max_steps=6000):
     """One execution.  Returns (scheduler, recorder, program)."""
     sc = sched.Scheduler(codes(), strategy, max_steps=getattr(prog_cls, 'max_steps', max_steps),
-                         candidate_files=CANDIDATE_FILES, active_files=getattr(prog_cls, 'active_files', None))
+                         candidate_files=CANDIDATE_FILES, active_files=getattr(prog_cls, 'active_files', None),
+                         instr_files=getattr(prog_cls, 'instr_files', None))
     rec = Recorder(sc)
     prog = prog_cls()
     orig_sleep = mido.ports.sleep
